@@ -261,6 +261,12 @@ def main():
             cdir = SPEC["cache_dir"]
             outcome["files"] = sorted(f for f in os.listdir(cdir) if f.startswith(mod))
         log("return", req=r, **outcome)
+        if r == 0 and SPEC.get("remove_after_first"):
+            for fn in SPEC["remove_after_first"]:
+                try:
+                    os.unlink(fn)
+                except OSError:
+                    pass
         if SPEC.get("fault") == "codegen_exception" and SPEC.get("fault_once"):
             import ffcx.compiler
 
